@@ -238,6 +238,16 @@ class CoqEval:
                 results[int(m.group(1))] = " ".join(m.group(2).split())
         if len(results) != len(self.exprs):
             raise CoqEvalError(f"parsed {len(results)} of {len(self.exprs)} results")
+        for f in files:  # successful shards are not kept (they are regenerated on every run)
+            for ext in (".v", ".vo", ".vok", ".vos", ".glob"):
+                try:
+                    f.with_suffix(ext).unlink()
+                except OSError:
+                    pass
+            try:
+                (f.parent / ("." + f.stem + ".aux")).unlink()
+            except OSError:
+                pass
         return [results[i] for i in range(len(self.exprs))]
 
 
